@@ -11,10 +11,14 @@ Gauss moments 2·10⁻¹⁵ (binary64 reading) and 4·10⁻⁵³ (decimal readin
 
 `checkE tn td e want den = true` means: the normal form of the C expression `e` has exactly the monomials
 of `want` (exact zero pattern, exact flag monomial) and each coefficient `c/10^s` satisfies
-`|c/10^s − w/den| ≤ tn/td·|w/den|`.  Its meaning for *values* is `CExprLemmas.checkE_sound` (lifted
-theorems at the end of this file).
+`|c/10^s − w/den| ≤ tn/td·|w/den|`.  Its meaning for *values* is `checkE_sound` (Core/CExprLemmas.lean);
+the second half of this file lifts every table theorem to a statement about the value of the C expression
+for all arguments and flags (`E.eval env e`; the variable numbering is that of the translator:
+function tables `0 = xi, 2..5 = xi1t, xi1r, xi2t, xi2r`; two-index tables `2..5 = x1t, x1r, x2t, x2r`,
+`6..9 = y1t, y1r, y2t, y2r`, `_12`: `1 = xi1, 0 = xi2`, `_c0c1`: `1 = c0, 0 = c1`).
 -/
-import CompmechVerif.Bardell.CheckLemmas
+import CompmechVerif.Bardell.Lifts
+import CompmechVerif.Model.IntegrateLemmas
 import CompmechVerif.Gen.CTables.FuncCheck
 import CompmechVerif.Gen.CTables.FullFfCheck
 import CompmechVerif.Gen.CTables.FullFfxiCheck
@@ -34,6 +38,8 @@ import CompmechVerif.Gen.CTables.MapFxifAll
 import CompmechVerif.Gen.CTables.MapFxifxiAll
 import CompmechVerif.Gen.CTables.MapFxixifxixiAll
 import CompmechVerif.Gen.CTables.LegGaussAll
+
+set_option linter.unusedSectionVars false
 
 namespace Compmech.C10.Props
 open Compmech.C10
@@ -292,8 +298,316 @@ theorem leggauss_ok (n : Nat) (h2 : 2 ≤ n) (h64 : n ≤ 64) :
   simp only [caseOk, Bool.and_eq_true] at hc
   exact ⟨t.2.1, t.2.2, ht, hc.1, hc.2⟩
 
+/-- **Gauss–Legendre exactness for polynomials** (real form, binary64 reading — the numbers the compiled code uses):
+for every supported order `2 ≤ n ≤ 64` and every real polynomial `p(ξ) = Σ_{k<2n} a_k ξ^k` (degree `≤ 2n−1`),
+`|Σ_i w_i·p(x_i) − ∫_{-1}^{1} p| ≤ 2·10⁻¹⁵·Σ_k |a_k|`. -/
+theorem leggauss_exact_poly (n : Nat) (h2 : 2 ≤ n) (h64 : n ≤ 64) :
+    ∃ pts wts, (n, pts, wts) ∈ Gen.LegGauss.table ∧
+      ∀ a : List ℝ, a.length ≤ 2 * n →
+        |gaussQuadB64 pts wts (fun x => polyFrom x 0 a) - ∫ x in (-1 : ℝ)..1, polyFrom x 0 a| * 10 ^ 15 ≤ 2 * norm1 a := by
+  obtain ⟨pts, wts, hm, hb, _⟩ := leggauss_ok n h2 h64
+  refine ⟨pts, wts, hm, fun a ha => ?_⟩
+  have := gaussB64Ok_poly (K := ℝ) (by norm_num [tolB64D]) hb a ha
+  rw [← integFrom_eq_integral]
+  have h1 : ((tolB64D : Nat) : ℝ) = 10 ^ 15 := by norm_num [tolB64D]
+  have h2' : ((tolB64N : Nat) : ℝ) = 2 := by norm_num [tolB64N]
+  rw [h1, h2'] at this
+  exact this
+
 /-- the table has no other orders -/
 theorem leggauss_orders : Gen.LegGauss.table.map (fun t => t.1) = List.range' 2 63 := Gen.LegGaussAll.orders
+
+/-! ## Lifted statements: values of the C expressions for all arguments
+
+`(dbasis d i).eval ξ` is the exact `D^d u_i(ξ)` (closed formula, `Bardell/Basis.lean`); integrals are
+Mathlib's interval integrals over `ℝ` (`Bardell/IntegralLemmas.lean`). -/
+
+section lifted
+open intervalIntegral
+variable {K : Type} [Field K] [LinearOrder K] [IsStrictOrderedRing K]
+
+/-- `calc_f`, every `i < 30`, every `ξ` and flags, in every ordered field: with `a_k` the integer numerators of
+`D^0 u_i` over `den`, `|C(i, ξ, flags)·den − flag_i·Σ a_k ξ^k|·10¹⁵ ≤ 5·|flag_i|·Σ |a_k||ξ|^k`
+(`flag_i` only for `i < 4`).  For `|ξ| ≤ 1` the right-hand sum is at most the 1-norm of the coefficients. -/
+theorem func_calc_f_value (i : Nat) (hi : i < 30) (env : Nat → K) :
+    |(entry1 Gen.Func.calc_f i).eval env * ((dbasis 0 i).den : K) - flag1 env i * evalP (env 0) (dbasis 0 i).num|
+        * (10 : K) ^ 15 ≤ 5 * (|flag1 env i| * absEvalP (env 0) (dbasis 0 i).num) :=
+  func_value hi (func_calc_f_ok i hi) env
+
+/-- `calc_fxi`, every `i < 30`, every `ξ` and flags, in every ordered field: with `a_k` the integer numerators of
+`D^1 u_i` over `den`, `|C(i, ξ, flags)·den − flag_i·Σ a_k ξ^k|·10¹⁵ ≤ 5·|flag_i|·Σ |a_k||ξ|^k`
+(`flag_i` only for `i < 4`).  For `|ξ| ≤ 1` the right-hand sum is at most the 1-norm of the coefficients. -/
+theorem func_calc_fxi_value (i : Nat) (hi : i < 30) (env : Nat → K) :
+    |(entry1 Gen.Func.calc_fxi i).eval env * ((dbasis 1 i).den : K) - flag1 env i * evalP (env 0) (dbasis 1 i).num|
+        * (10 : K) ^ 15 ≤ 5 * (|flag1 env i| * absEvalP (env 0) (dbasis 1 i).num) :=
+  func_value hi (func_calc_fxi_ok i hi) env
+
+/-- `calc_fxixi`, every `i < 30`, every `ξ` and flags, in every ordered field: with `a_k` the integer numerators of
+`D^2 u_i` over `den`, `|C(i, ξ, flags)·den − flag_i·Σ a_k ξ^k|·10¹⁵ ≤ 5·|flag_i|·Σ |a_k||ξ|^k`
+(`flag_i` only for `i < 4`).  For `|ξ| ≤ 1` the right-hand sum is at most the 1-norm of the coefficients. -/
+theorem func_calc_fxixi_value (i : Nat) (hi : i < 30) (env : Nat → K) :
+    |(entry1 Gen.Func.calc_fxixi i).eval env * ((dbasis 2 i).den : K) - flag1 env i * evalP (env 0) (dbasis 2 i).num|
+        * (10 : K) ^ 15 ≤ 5 * (|flag1 env i| * absEvalP (env 0) (dbasis 2 i).num) :=
+  func_value hi (func_calc_fxixi_ok i hi) env
+
+/-- `calc_vec_f`, every `i < 30`, every `ξ` and flags, in every ordered field: with `a_k` the integer numerators of
+`D^0 u_i` over `den`, `|C(i, ξ, flags)·den − flag_i·Σ a_k ξ^k|·10¹⁵ ≤ 5·|flag_i|·Σ |a_k||ξ|^k`
+(`flag_i` only for `i < 4`).  For `|ξ| ≤ 1` the right-hand sum is at most the 1-norm of the coefficients. -/
+theorem func_calc_vec_f_value (i : Nat) (hi : i < 30) (env : Nat → K) :
+    |(entry1 Gen.Func.calc_vec_f i).eval env * ((dbasis 0 i).den : K) - flag1 env i * evalP (env 0) (dbasis 0 i).num|
+        * (10 : K) ^ 15 ≤ 5 * (|flag1 env i| * absEvalP (env 0) (dbasis 0 i).num) :=
+  func_value hi (func_calc_vec_f_ok i hi) env
+
+/-- `calc_vec_fxi`, every `i < 30`, every `ξ` and flags, in every ordered field: with `a_k` the integer numerators of
+`D^1 u_i` over `den`, `|C(i, ξ, flags)·den − flag_i·Σ a_k ξ^k|·10¹⁵ ≤ 5·|flag_i|·Σ |a_k||ξ|^k`
+(`flag_i` only for `i < 4`).  For `|ξ| ≤ 1` the right-hand sum is at most the 1-norm of the coefficients. -/
+theorem func_calc_vec_fxi_value (i : Nat) (hi : i < 30) (env : Nat → K) :
+    |(entry1 Gen.Func.calc_vec_fxi i).eval env * ((dbasis 1 i).den : K) - flag1 env i * evalP (env 0) (dbasis 1 i).num|
+        * (10 : K) ^ 15 ≤ 5 * (|flag1 env i| * absEvalP (env 0) (dbasis 1 i).num) :=
+  func_value hi (func_calc_vec_fxi_ok i hi) env
+
+/-- `calc_vec_fxixi`, every `i < 30`, every `ξ` and flags, in every ordered field: with `a_k` the integer numerators of
+`D^2 u_i` over `den`, `|C(i, ξ, flags)·den − flag_i·Σ a_k ξ^k|·10¹⁵ ≤ 5·|flag_i|·Σ |a_k||ξ|^k`
+(`flag_i` only for `i < 4`).  For `|ξ| ≤ 1` the right-hand sum is at most the 1-norm of the coefficients. -/
+theorem func_calc_vec_fxixi_value (i : Nat) (hi : i < 30) (env : Nat → K) :
+    |(entry1 Gen.Func.calc_vec_fxixi i).eval env * ((dbasis 2 i).den : K) - flag1 env i * evalP (env 0) (dbasis 2 i).num|
+        * (10 : K) ^ 15 ≤ 5 * (|flag1 env i| * absEvalP (env 0) (dbasis 2 i).num) :=
+  func_value hi (func_calc_vec_fxixi_ok i hi) env
+
+/-- `integral_ff(i, j, flags)` for all `i, j < 30` and all real flags is within 5·10⁻¹⁵ (relative) of
+`x-flag_i · y-flag_j · ∫_{-1}^{1} D^0 u_i(x) · D^0 u_j(x) dx` (in particular exactly `0` where the integral is `0`). -/
+theorem full_ff_integral (i j : Nat) (hi : i < 30) (hj : j < 30) (env : Nat → ℝ) :
+    |(entry Gen.FullFf.rows i j).eval env
+        - flagX env i * flagY env j * ∫ x in (-1 : ℝ)..1, (dbasis 0 i).eval x * (dbasis 0 j).eval x|
+      ≤ 5 / 10 ^ 15 * |flagX env i * flagY env j * ∫ x in (-1 : ℝ)..1, (dbasis 0 i).eval x * (dbasis 0 j).eval x| :=
+  full_value_real hi hj (full_ff_ok i j hi hj) env
+
+/-- `integral_ffxi(i, j, flags)` for all `i, j < 30` and all real flags is within 5·10⁻¹⁵ (relative) of
+`x-flag_i · y-flag_j · ∫_{-1}^{1} D^0 u_i(x) · D^1 u_j(x) dx` (in particular exactly `0` where the integral is `0`). -/
+theorem full_ffxi_integral (i j : Nat) (hi : i < 30) (hj : j < 30) (env : Nat → ℝ) :
+    |(entry Gen.FullFfxi.rows i j).eval env
+        - flagX env i * flagY env j * ∫ x in (-1 : ℝ)..1, (dbasis 0 i).eval x * (dbasis 1 j).eval x|
+      ≤ 5 / 10 ^ 15 * |flagX env i * flagY env j * ∫ x in (-1 : ℝ)..1, (dbasis 0 i).eval x * (dbasis 1 j).eval x| :=
+  full_value_real hi hj (full_ffxi_ok i j hi hj) env
+
+/-- `integral_ffxixi(i, j, flags)` for all `i, j < 30` and all real flags is within 5·10⁻¹⁵ (relative) of
+`x-flag_i · y-flag_j · ∫_{-1}^{1} D^0 u_i(x) · D^2 u_j(x) dx` (in particular exactly `0` where the integral is `0`). -/
+theorem full_ffxixi_integral (i j : Nat) (hi : i < 30) (hj : j < 30) (env : Nat → ℝ) :
+    |(entry Gen.FullFfxixi.rows i j).eval env
+        - flagX env i * flagY env j * ∫ x in (-1 : ℝ)..1, (dbasis 0 i).eval x * (dbasis 2 j).eval x|
+      ≤ 5 / 10 ^ 15 * |flagX env i * flagY env j * ∫ x in (-1 : ℝ)..1, (dbasis 0 i).eval x * (dbasis 2 j).eval x| :=
+  full_value_real hi hj (full_ffxixi_ok i j hi hj) env
+
+/-- `integral_fxifxi(i, j, flags)` for all `i, j < 30` and all real flags is within 5·10⁻¹⁵ (relative) of
+`x-flag_i · y-flag_j · ∫_{-1}^{1} D^1 u_i(x) · D^1 u_j(x) dx` (in particular exactly `0` where the integral is `0`). -/
+theorem full_fxifxi_integral (i j : Nat) (hi : i < 30) (hj : j < 30) (env : Nat → ℝ) :
+    |(entry Gen.FullFxifxi.rows i j).eval env
+        - flagX env i * flagY env j * ∫ x in (-1 : ℝ)..1, (dbasis 1 i).eval x * (dbasis 1 j).eval x|
+      ≤ 5 / 10 ^ 15 * |flagX env i * flagY env j * ∫ x in (-1 : ℝ)..1, (dbasis 1 i).eval x * (dbasis 1 j).eval x| :=
+  full_value_real hi hj (full_fxifxi_ok i j hi hj) env
+
+/-- `integral_fxifxixi(i, j, flags)` for all `i, j < 30` and all real flags is within 5·10⁻¹⁵ (relative) of
+`x-flag_i · y-flag_j · ∫_{-1}^{1} D^1 u_i(x) · D^2 u_j(x) dx` (in particular exactly `0` where the integral is `0`). -/
+theorem full_fxifxixi_integral (i j : Nat) (hi : i < 30) (hj : j < 30) (env : Nat → ℝ) :
+    |(entry Gen.FullFxifxixi.rows i j).eval env
+        - flagX env i * flagY env j * ∫ x in (-1 : ℝ)..1, (dbasis 1 i).eval x * (dbasis 2 j).eval x|
+      ≤ 5 / 10 ^ 15 * |flagX env i * flagY env j * ∫ x in (-1 : ℝ)..1, (dbasis 1 i).eval x * (dbasis 2 j).eval x| :=
+  full_value_real hi hj (full_fxifxixi_ok i j hi hj) env
+
+/-- `integral_fxixifxixi(i, j, flags)` for all `i, j < 30` and all real flags is within 5·10⁻¹⁵ (relative) of
+`x-flag_i · y-flag_j · ∫_{-1}^{1} D^2 u_i(x) · D^2 u_j(x) dx` (in particular exactly `0` where the integral is `0`). -/
+theorem full_fxixifxixi_integral (i j : Nat) (hi : i < 30) (hj : j < 30) (env : Nat → ℝ) :
+    |(entry Gen.FullFxixifxixi.rows i j).eval env
+        - flagX env i * flagY env j * ∫ x in (-1 : ℝ)..1, (dbasis 2 i).eval x * (dbasis 2 j).eval x|
+      ≤ 5 / 10 ^ 15 * |flagX env i * flagY env j * ∫ x in (-1 : ℝ)..1, (dbasis 2 i).eval x * (dbasis 2 j).eval x| :=
+  full_value_real hi hj (full_fxixifxixi_ok i j hi hj) env
+
+/-- `integral_ff_12(xi1, xi2, i, j, flags)` for all `i, j < 30`, all real `xi1 = env 1`, `xi2 = env 0` and flags is
+within `10⁻¹³ · |flags| · (|A|(xi2) + |A|(xi1))` of `x-flag_i · y-flag_j · ∫_{xi1}^{xi2} D^0 u_i · D^0 u_j`, where `|A|`
+is the antiderivative of the product with coefficients and argument replaced by their moduli. -/
+theorem sub_ff_integral (i j : Nat) (hi : i < 30) (hj : j < 30) (env : Nat → ℝ) :
+    |(entry Gen.SubFfAll.rows i j).eval env
+        - flagX env i * flagY env j * ∫ x in (env 1)..(env 0), (dbasis 0 i).eval x * (dbasis 0 j).eval x|
+      ≤ 1 / 10 ^ 13 * (|flagX env i * flagY env j| *
+          (absAntiOf (env 0) (mulTerms (toTerms (dbasis 0 i).num) (toTerms (dbasis 0 j).num))
+            + absAntiOf (env 1) (mulTerms (toTerms (dbasis 0 i).num) (toTerms (dbasis 0 j).num)))
+          / (((dbasis 0 i).den : ℝ) * ((dbasis 0 j).den : ℝ))) :=
+  sub_value_real hi hj (sub_ff_ok i j hi hj) env
+
+/-- `integral_ffxi_12(xi1, xi2, i, j, flags)` for all `i, j < 30`, all real `xi1 = env 1`, `xi2 = env 0` and flags is
+within `10⁻¹³ · |flags| · (|A|(xi2) + |A|(xi1))` of `x-flag_i · y-flag_j · ∫_{xi1}^{xi2} D^0 u_i · D^1 u_j`, where `|A|`
+is the antiderivative of the product with coefficients and argument replaced by their moduli. -/
+theorem sub_ffxi_integral (i j : Nat) (hi : i < 30) (hj : j < 30) (env : Nat → ℝ) :
+    |(entry Gen.SubFfxiAll.rows i j).eval env
+        - flagX env i * flagY env j * ∫ x in (env 1)..(env 0), (dbasis 0 i).eval x * (dbasis 1 j).eval x|
+      ≤ 1 / 10 ^ 13 * (|flagX env i * flagY env j| *
+          (absAntiOf (env 0) (mulTerms (toTerms (dbasis 0 i).num) (toTerms (dbasis 1 j).num))
+            + absAntiOf (env 1) (mulTerms (toTerms (dbasis 0 i).num) (toTerms (dbasis 1 j).num)))
+          / (((dbasis 0 i).den : ℝ) * ((dbasis 1 j).den : ℝ))) :=
+  sub_value_real hi hj (sub_ffxi_ok i j hi hj) env
+
+/-- `integral_ffxixi_12(xi1, xi2, i, j, flags)` for all `i, j < 30`, all real `xi1 = env 1`, `xi2 = env 0` and flags is
+within `10⁻¹³ · |flags| · (|A|(xi2) + |A|(xi1))` of `x-flag_i · y-flag_j · ∫_{xi1}^{xi2} D^0 u_i · D^2 u_j`, where `|A|`
+is the antiderivative of the product with coefficients and argument replaced by their moduli. -/
+theorem sub_ffxixi_integral (i j : Nat) (hi : i < 30) (hj : j < 30) (env : Nat → ℝ) :
+    |(entry Gen.SubFfxixiAll.rows i j).eval env
+        - flagX env i * flagY env j * ∫ x in (env 1)..(env 0), (dbasis 0 i).eval x * (dbasis 2 j).eval x|
+      ≤ 1 / 10 ^ 13 * (|flagX env i * flagY env j| *
+          (absAntiOf (env 0) (mulTerms (toTerms (dbasis 0 i).num) (toTerms (dbasis 2 j).num))
+            + absAntiOf (env 1) (mulTerms (toTerms (dbasis 0 i).num) (toTerms (dbasis 2 j).num)))
+          / (((dbasis 0 i).den : ℝ) * ((dbasis 2 j).den : ℝ))) :=
+  sub_value_real hi hj (sub_ffxixi_ok i j hi hj) env
+
+/-- `integral_fxifxi_12(xi1, xi2, i, j, flags)` for all `i, j < 30`, all real `xi1 = env 1`, `xi2 = env 0` and flags is
+within `10⁻¹³ · |flags| · (|A|(xi2) + |A|(xi1))` of `x-flag_i · y-flag_j · ∫_{xi1}^{xi2} D^1 u_i · D^1 u_j`, where `|A|`
+is the antiderivative of the product with coefficients and argument replaced by their moduli. -/
+theorem sub_fxifxi_integral (i j : Nat) (hi : i < 30) (hj : j < 30) (env : Nat → ℝ) :
+    |(entry Gen.SubFxifxiAll.rows i j).eval env
+        - flagX env i * flagY env j * ∫ x in (env 1)..(env 0), (dbasis 1 i).eval x * (dbasis 1 j).eval x|
+      ≤ 1 / 10 ^ 13 * (|flagX env i * flagY env j| *
+          (absAntiOf (env 0) (mulTerms (toTerms (dbasis 1 i).num) (toTerms (dbasis 1 j).num))
+            + absAntiOf (env 1) (mulTerms (toTerms (dbasis 1 i).num) (toTerms (dbasis 1 j).num)))
+          / (((dbasis 1 i).den : ℝ) * ((dbasis 1 j).den : ℝ))) :=
+  sub_value_real hi hj (sub_fxifxi_ok i j hi hj) env
+
+/-- `integral_fxifxixi_12(xi1, xi2, i, j, flags)` for all `i, j < 30`, all real `xi1 = env 1`, `xi2 = env 0` and flags is
+within `10⁻¹³ · |flags| · (|A|(xi2) + |A|(xi1))` of `x-flag_i · y-flag_j · ∫_{xi1}^{xi2} D^1 u_i · D^2 u_j`, where `|A|`
+is the antiderivative of the product with coefficients and argument replaced by their moduli. -/
+theorem sub_fxifxixi_integral (i j : Nat) (hi : i < 30) (hj : j < 30) (env : Nat → ℝ) :
+    |(entry Gen.SubFxifxixiAll.rows i j).eval env
+        - flagX env i * flagY env j * ∫ x in (env 1)..(env 0), (dbasis 1 i).eval x * (dbasis 2 j).eval x|
+      ≤ 1 / 10 ^ 13 * (|flagX env i * flagY env j| *
+          (absAntiOf (env 0) (mulTerms (toTerms (dbasis 1 i).num) (toTerms (dbasis 2 j).num))
+            + absAntiOf (env 1) (mulTerms (toTerms (dbasis 1 i).num) (toTerms (dbasis 2 j).num)))
+          / (((dbasis 1 i).den : ℝ) * ((dbasis 2 j).den : ℝ))) :=
+  sub_value_real hi hj (sub_fxifxixi_ok i j hi hj) env
+
+/-- `integral_fxixifxixi_12(xi1, xi2, i, j, flags)` for all `i, j < 30`, all real `xi1 = env 1`, `xi2 = env 0` and flags is
+within `10⁻¹³ · |flags| · (|A|(xi2) + |A|(xi1))` of `x-flag_i · y-flag_j · ∫_{xi1}^{xi2} D^2 u_i · D^2 u_j`, where `|A|`
+is the antiderivative of the product with coefficients and argument replaced by their moduli. -/
+theorem sub_fxixifxixi_integral (i j : Nat) (hi : i < 30) (hj : j < 30) (env : Nat → ℝ) :
+    |(entry Gen.SubFxixifxixiAll.rows i j).eval env
+        - flagX env i * flagY env j * ∫ x in (env 1)..(env 0), (dbasis 2 i).eval x * (dbasis 2 j).eval x|
+      ≤ 1 / 10 ^ 13 * (|flagX env i * flagY env j| *
+          (absAntiOf (env 0) (mulTerms (toTerms (dbasis 2 i).num) (toTerms (dbasis 2 j).num))
+            + absAntiOf (env 1) (mulTerms (toTerms (dbasis 2 i).num) (toTerms (dbasis 2 j).num)))
+          / (((dbasis 2 i).den : ℝ) * ((dbasis 2 j).den : ℝ))) :=
+  sub_value_real hi hj (sub_fxixifxixi_ok i j hi hj) env
+
+/-- PARTIAL (value level): `integral_ff_c0c1(c0, c1, i, j, flags)` is within `10⁻¹³·Σ|wanted coefficient|·|monomial|`
+of the polynomial `mapWant` in `(c0, c1, flags)`.  `mapWant` is *defined* as the binomial expansion
+`Σ_{a,t} (D^0 u_j)_{a+t}·C(a+t,t)·(∫_{-1}^{1} D^0 u_i(ξ)·ξ^t dξ)·c0^a·c1^t` times the flag monomial; what is missing in Lean is
+the proof that this expansion equals `∫_{-1}^{1} D^0 u_i(ξ)·D^0 u_j(c0 + c1·ξ) dξ` (the coefficients are compared with an
+independent exact oracle for all 900 pairs by the validation V instead). -/
+theorem map_ff_value_partial (i j : Nat) (hi : i < 30) (hj : j < 30) (env : Nat → K) :
+    |(entry Gen.MapFfAll.rows i j).eval env * (((dbasis 0 i).den * (dbasis 0 j).den * intL : Nat) : K)
+        - evalTerms env (mapWant (flagKey2 i j) (mus (dbasis 0 i).num) (dbasis 0 j).num)| * ((tolSubD : Nat) : K)
+      ≤ ((tolSubN : Nat) : K) * absTerms env (mapWant (flagKey2 i j) (mus (dbasis 0 i).num) (dbasis 0 j).num) :=
+  checkE_sound (map_ff_ok i j hi hj) env
+
+/-- PARTIAL (value level): `integral_ffxi_c0c1(c0, c1, i, j, flags)` is within `10⁻¹³·Σ|wanted coefficient|·|monomial|`
+of the polynomial `mapWant` in `(c0, c1, flags)`.  `mapWant` is *defined* as the binomial expansion
+`Σ_{a,t} (D^1 u_j)_{a+t}·C(a+t,t)·(∫_{-1}^{1} D^0 u_i(ξ)·ξ^t dξ)·c0^a·c1^t` times the flag monomial; what is missing in Lean is
+the proof that this expansion equals `∫_{-1}^{1} D^0 u_i(ξ)·D^1 u_j(c0 + c1·ξ) dξ` (the coefficients are compared with an
+independent exact oracle for all 900 pairs by the validation V instead). -/
+theorem map_ffxi_value_partial (i j : Nat) (hi : i < 30) (hj : j < 30) (env : Nat → K) :
+    |(entry Gen.MapFfxiAll.rows i j).eval env * (((dbasis 0 i).den * (dbasis 1 j).den * intL : Nat) : K)
+        - evalTerms env (mapWant (flagKey2 i j) (mus (dbasis 0 i).num) (dbasis 1 j).num)| * ((tolSubD : Nat) : K)
+      ≤ ((tolSubN : Nat) : K) * absTerms env (mapWant (flagKey2 i j) (mus (dbasis 0 i).num) (dbasis 1 j).num) :=
+  checkE_sound (map_ffxi_ok i j hi hj) env
+
+/-- PARTIAL (value level): `integral_fxif_c0c1(c0, c1, i, j, flags)` is within `10⁻¹³·Σ|wanted coefficient|·|monomial|`
+of the polynomial `mapWant` in `(c0, c1, flags)`.  `mapWant` is *defined* as the binomial expansion
+`Σ_{a,t} (D^0 u_j)_{a+t}·C(a+t,t)·(∫_{-1}^{1} D^1 u_i(ξ)·ξ^t dξ)·c0^a·c1^t` times the flag monomial; what is missing in Lean is
+the proof that this expansion equals `∫_{-1}^{1} D^1 u_i(ξ)·D^0 u_j(c0 + c1·ξ) dξ` (the coefficients are compared with an
+independent exact oracle for all 900 pairs by the validation V instead). -/
+theorem map_fxif_value_partial (i j : Nat) (hi : i < 30) (hj : j < 30) (env : Nat → K) :
+    |(entry Gen.MapFxifAll.rows i j).eval env * (((dbasis 1 i).den * (dbasis 0 j).den * intL : Nat) : K)
+        - evalTerms env (mapWant (flagKey2 i j) (mus (dbasis 1 i).num) (dbasis 0 j).num)| * ((tolSubD : Nat) : K)
+      ≤ ((tolSubN : Nat) : K) * absTerms env (mapWant (flagKey2 i j) (mus (dbasis 1 i).num) (dbasis 0 j).num) :=
+  checkE_sound (map_fxif_ok i j hi hj) env
+
+/-- PARTIAL (value level): `integral_fxifxi_c0c1(c0, c1, i, j, flags)` is within `10⁻¹³·Σ|wanted coefficient|·|monomial|`
+of the polynomial `mapWant` in `(c0, c1, flags)`.  `mapWant` is *defined* as the binomial expansion
+`Σ_{a,t} (D^1 u_j)_{a+t}·C(a+t,t)·(∫_{-1}^{1} D^1 u_i(ξ)·ξ^t dξ)·c0^a·c1^t` times the flag monomial; what is missing in Lean is
+the proof that this expansion equals `∫_{-1}^{1} D^1 u_i(ξ)·D^1 u_j(c0 + c1·ξ) dξ` (the coefficients are compared with an
+independent exact oracle for all 900 pairs by the validation V instead). -/
+theorem map_fxifxi_value_partial (i j : Nat) (hi : i < 30) (hj : j < 30) (env : Nat → K) :
+    |(entry Gen.MapFxifxiAll.rows i j).eval env * (((dbasis 1 i).den * (dbasis 1 j).den * intL : Nat) : K)
+        - evalTerms env (mapWant (flagKey2 i j) (mus (dbasis 1 i).num) (dbasis 1 j).num)| * ((tolSubD : Nat) : K)
+      ≤ ((tolSubN : Nat) : K) * absTerms env (mapWant (flagKey2 i j) (mus (dbasis 1 i).num) (dbasis 1 j).num) :=
+  checkE_sound (map_fxifxi_ok i j hi hj) env
+
+/-- PARTIAL (value level): `integral_fxixifxixi_c0c1(c0, c1, i, j, flags)` is within `10⁻¹³·Σ|wanted coefficient|·|monomial|`
+of the polynomial `mapWant` in `(c0, c1, flags)`.  `mapWant` is *defined* as the binomial expansion
+`Σ_{a,t} (D^2 u_j)_{a+t}·C(a+t,t)·(∫_{-1}^{1} D^2 u_i(ξ)·ξ^t dξ)·c0^a·c1^t` times the flag monomial; what is missing in Lean is
+the proof that this expansion equals `∫_{-1}^{1} D^2 u_i(ξ)·D^2 u_j(c0 + c1·ξ) dξ` (the coefficients are compared with an
+independent exact oracle for all 900 pairs by the validation V instead). -/
+theorem map_fxixifxixi_value_partial (i j : Nat) (hi : i < 30) (hj : j < 30) (env : Nat → K) :
+    |(entry Gen.MapFxixifxixiAll.rows i j).eval env * (((dbasis 2 i).den * (dbasis 2 j).den * intL : Nat) : K)
+        - evalTerms env (mapWant (flagKey2 i j) (mus (dbasis 2 i).num) (dbasis 2 j).num)| * ((tolSubD : Nat) : K)
+      ≤ ((tolSubN : Nat) : K) * absTerms env (mapWant (flagKey2 i j) (mus (dbasis 2 i).num) (dbasis 2 j).num) :=
+  checkE_sound (map_fxixifxixi_ok i j hi hj) env
+
+end lifted
+
+/-! ## Trapezoid and Simpson point sets (`integrate.pyx`, hand model `Model/Integrate.lean`)
+
+For **all** grid sizes (induction in `Model/IntegrateLemmas.lean`), in every field of characteristic 0.
+`quad pts f = Σ alphas·betas·f(xs2, ys2)`; `sumTo n g = Σ_{i<n} g i`. -/
+
+section integrate
+open Compmech.Integrate
+variable {F : Type} [Field F] [CharZero F]
+
+/-- `trapz_quad(nx)`, `nx ≥ 2`: `Σ weights[i]·(a + b·xis[i]) = 2a = ∫_{-1}^{1} (a + bξ) dξ` — exact for linear
+integrands, weights summing to the length `2` of the reference interval (`a = 1, b = 0`). -/
+theorem trapz_exact_linear (nx : Nat) (hnx : 2 ≤ nx) (a b : F) :
+    sumTo nx (fun i => trapzW nx i * (a + b * trapzXi nx i)) = 2 * a :=
+  trapz_quad_exact_linear nx hnx a b
+
+/-- `trapz2d_points`, `nx, ny ≥ 2`: exact for every bilinear integrand `a + bx + cy + dxy` on the rectangle -/
+theorem trapz2d_exact_linear (xmin xmax : F) (nx : Nat) (ymin ymax : F) (ny : Nat) (hnx : 2 ≤ nx) (hny : 2 ≤ ny)
+    (a b c d : F) :
+    quad (trapz2dPoints xmin xmax nx ymin ymax ny) (fun x y => a + b * x + c * y + d * x * y) =
+      (xmax - xmin) * (ymax - ymin) *
+        (a + b * ((xmin + xmax) / 2) + c * ((ymin + ymax) / 2) + d * ((xmin + xmax) / 2) * ((ymin + ymax) / 2)) :=
+  trapz2d_exact_bilinear xmin xmax nx ymin ymax ny hnx hny a b c d
+
+/-- `trapz2d_points`: the weights `alphas·betas` sum to the domain area -/
+theorem trapz2d_weights_sum_area (xmin xmax : F) (nx : Nat) (ymin ymax : F) (ny : Nat) (hnx : 2 ≤ nx) (hny : 2 ≤ ny) :
+    quad (trapz2dPoints xmin xmax nx ymin ymax ny) (fun _ _ => 1) = (xmax - xmin) * (ymax - ymin) :=
+  Integrate.trapz2d_weights_sum_area xmin xmax nx ymin ymax ny hnx hny
+
+/-- `simps2d_points`: the corner / edge / interior enumeration of the code is the tensor product of two composite
+Simpson rules `simpS` (for any product integrand) -/
+theorem simps2d_is_tensor_rule (xmin xmax : F) (nx0 : Nat) (ymin ymax : F) (ny0 : Nat) (p q : F → F) :
+    quad (simps2dPoints xmin xmax nx0 ymin ymax ny0) (fun x y => p x * q y) =
+      (1 / 9 * ((xmax - xmin) / (2 * (halfUp nx0 : F))) * ((ymax - ymin) / (2 * (halfUp ny0 : F)))) *
+        simpS (halfUp nx0) (fun i => p (linspace xmin xmax (halfUp nx0) i)) *
+        simpS (halfUp ny0) (fun j => q (linspace ymin ymax (halfUp ny0) j)) :=
+  simps2d_eq_tensor xmin xmax nx0 ymin ymax ny0 p q
+
+/-- `simps2d_points`, any requested `nx0, ny0 ≥ 1` (odd counts are bumped to even): exact for `p(x)·q(y)` with cubic
+`p, q`, the right-hand side being the product of the exact 1-D integrals (`quartic` = antiderivative of `cubic`);
+by linearity of `quad` (`quad_add`, `quad_smul`) hence for every bicubic polynomial. -/
+theorem simps2d_exact_cubic (xmin xmax : F) (nx0 : Nat) (ymin ymax : F) (ny0 : Nat) (hnx : 1 ≤ nx0) (hny : 1 ≤ ny0)
+    (a0 a1 a2 a3 b0 b1 b2 b3 : F) :
+    quad (simps2dPoints xmin xmax nx0 ymin ymax ny0) (fun x y => cubic a0 a1 a2 a3 x * cubic b0 b1 b2 b3 y) =
+      (quartic a0 a1 a2 a3 xmax - quartic a0 a1 a2 a3 xmin) * (quartic b0 b1 b2 b3 ymax - quartic b0 b1 b2 b3 ymin) :=
+  Integrate.simps2d_exact_cubic xmin xmax nx0 ymin ymax ny0 hnx hny a0 a1 a2 a3 b0 b1 b2 b3
+
+/-- `simps2d_points`: the weights sum to the domain area -/
+theorem simps2d_weights_sum_area (xmin xmax : F) (nx0 : Nat) (ymin ymax : F) (ny0 : Nat) (hnx : 1 ≤ nx0) (hny : 1 ≤ ny0) :
+    quad (simps2dPoints xmin xmax nx0 ymin ymax ny0) (fun _ _ => 1) = (xmax - xmin) * (ymax - ymin) :=
+  Integrate.simps2d_weights_sum_area xmin xmax nx0 ymin ymax ny0 hnx hny
+
+/-- the quadrature sum is linear in the integrand -/
+theorem quad_linear (pts : List (Pt F)) (c : F) (f g : F → F → F) :
+    quad pts (fun x y => c * f x y + g x y) = c * quad pts f + quad pts g := by
+  rw [quad_add pts (fun x y => c * f x y) g, quad_smul]
+
+end integrate
 
 /-! ## Non-vacuity -/
 
